@@ -392,6 +392,40 @@ for f in ('phase0', 'altair', 'bellatrix', 'capella', 'deneb'):
     EXTRA.setdefault('eth2/beacon/%s:BeaconStateView.ProcessBlock' % f, []).append(_E1G)
 for k in ('eth2/beacon/common:PostSlotTransition', 'eth2/beacon/common:StateTransition'):
     EXTRA.setdefault(k, []).append(_E1G)
+# the epoch's attester data from altair on (C02): eligible indices, participation lists, unslashed participating balances
+PROPS['eth2/beacon/altair:ComputeEpochAttesterData'] = ' C02'
+_PP = 'part_raw(st_prevpart(state))'
+_CP = 'part_raw(st_curpart(state))'
+def _stake(part, act, flag):
+    return 'max(part_sum%s(flats, %s, %s, len(%s)), spec.EFFECTIVE_BALANCE_INCREMENT)' % (flag, part, act, act)
+_CD0 = ('old(spec != nil && epc != nil && state != nil && epc.PreviousEpoch != nil && epc.CurrentEpoch != nil && len(flats) < 4611686018427387904 && epc.PreviousEpoch.Epoch < 4611686018427387904'
+        ' && len(%s) == len(flats) && len(%s) == len(flats)'
+        ' && (forall a :: {epc.PreviousEpoch.ActiveIndices[a]} 0 <= a && a < len(epc.PreviousEpoch.ActiveIndices) ==> epc.PreviousEpoch.ActiveIndices[a] < len(flats))'
+        ' && (forall a :: {epc.CurrentEpoch.ActiveIndices[a]} 0 <= a && a < len(epc.CurrentEpoch.ActiveIndices) ==> epc.CurrentEpoch.ActiveIndices[a] < len(flats)))') % (_PP, _CP)
+def _cinv(x):
+    return '//@     invariant ' + _CD0 + ' ==> (' + x + ')'
+EXTRA.setdefault('eth2/beacon/altair:ComputeEpochAttesterData', [])
+EXTRA['eth2/beacon/altair:ComputeEpochAttesterData'] += [
+    '//@   opt rangeindex=on',
+    '//@   ensures c02_shape: err == nil && ' + _CD0 + ' ==> r0 != nil && r0.PrevEpoch == old(epc.PreviousEpoch.Epoch) && r0.CurrEpoch == old(epc.CurrentEpoch.Epoch) && eqseq(r0.Flats, flats) && eqseq(r0.PrevParticipation, %s) && eqseq(r0.CurrParticipation, %s)' % (_PP, _CP),
+    '//@   ensures c02_eligible: err == nil && ' + _CD0 + ' ==> len(r0.EligibleIndices) == att_elig_cnt(flats, old(epc.PreviousEpoch.Epoch), len(flats)) && (forall p :: {att_elig_cnt(flats, old(epc.PreviousEpoch.Epoch), p)} 0 <= p && p < len(flats) && att_eligible(flats[p], old(epc.PreviousEpoch.Epoch)) ==> 0 <= att_elig_cnt(flats, old(epc.PreviousEpoch.Epoch), p) && att_elig_cnt(flats, old(epc.PreviousEpoch.Epoch), p) < len(r0.EligibleIndices) && r0.EligibleIndices[att_elig_cnt(flats, old(epc.PreviousEpoch.Epoch), p)] == p)',
+    '//@   ensures c02_eligible_sorted: err == nil && ' + _CD0 + ' ==> (forall a, b :: {r0.EligibleIndices[a], r0.EligibleIndices[b]} 0 <= a && a < b && b < len(r0.EligibleIndices) ==> r0.EligibleIndices[a] < r0.EligibleIndices[b]) && (forall a :: {r0.EligibleIndices[a]} 0 <= a && a < len(r0.EligibleIndices) ==> r0.EligibleIndices[a] < len(flats) && att_eligible(flats[r0.EligibleIndices[a]], old(epc.PreviousEpoch.Epoch)))',
+    '//@   ensures c02_prev_stake: err == nil && ' + _CD0 + ' ==> r0.PrevEpochUnslashedStake.SourceStake == %s && r0.PrevEpochUnslashedStake.TargetStake == %s && r0.PrevEpochUnslashedStake.HeadStake == %s' % (_stake(_PP, 'old(epc.PreviousEpoch.ActiveIndices)', '1'), _stake(_PP, 'old(epc.PreviousEpoch.ActiveIndices)', '2'), _stake(_PP, 'old(epc.PreviousEpoch.ActiveIndices)', '4')),
+    '//@   ensures c02_current_target_stake: err == nil && ' + _CD0 + ' ==> r0.CurrEpochUnslashedTargetStake == %s' % _stake(_CP, 'old(epc.CurrentEpoch.ActiveIndices)', '2'),
+    '//@   loop 1'] + [_cinv(x) for x in (
+        'out != nil && 0 <= i && i <= len(flats) && len(out.EligibleIndices) == att_elig_cnt(flats, prevEpoch, i) && len(out.EligibleIndices) <= i && prevEpoch == epc.PreviousEpoch.Epoch && out.PrevEpoch == prevEpoch && out.CurrEpoch == epc.CurrentEpoch.Epoch && eqseq(out.Flats, flats)',
+        'out.PrevEpochUnslashedStake.SourceStake == 0 && out.PrevEpochUnslashedStake.TargetStake == 0 && out.PrevEpochUnslashedStake.HeadStake == 0 && out.CurrEpochUnslashedTargetStake == 0',
+        'forall p :: {att_elig_cnt(flats, prevEpoch, p)} 0 <= p && p < i && att_eligible(flats[p], prevEpoch) ==> 0 <= att_elig_cnt(flats, prevEpoch, p) && att_elig_cnt(flats, prevEpoch, p) < len(out.EligibleIndices) && out.EligibleIndices[att_elig_cnt(flats, prevEpoch, p)] == p',
+        'forall a :: {out.EligibleIndices[a]} 0 <= a && a < len(out.EligibleIndices) ==> out.EligibleIndices[a] < i && att_eligible(flats[out.EligibleIndices[a]], prevEpoch)',
+        'forall a, b :: {out.EligibleIndices[a], out.EligibleIndices[b]} 0 <= a && a < b && b < len(out.EligibleIndices) ==> out.EligibleIndices[a] < out.EligibleIndices[b]')] + [
+    '//@   loop 2'] + [_cinv(x) for x in (
+        'out != nil && eqseq(prevEpochParticipation, %s) && eqseq(currEpochParticipation, %s) && out.CurrEpochUnslashedTargetStake == 0' % (_PP, _CP),
+        'out.PrevEpochUnslashedStake.SourceStake == part_sum1(flats, %s, epc.PreviousEpoch.ActiveIndices, rangeindex + 1)' % _PP,
+        'out.PrevEpochUnslashedStake.TargetStake == part_sum2(flats, %s, epc.PreviousEpoch.ActiveIndices, rangeindex + 1)' % _PP,
+        'out.PrevEpochUnslashedStake.HeadStake == part_sum4(flats, %s, epc.PreviousEpoch.ActiveIndices, rangeindex + 1)' % _PP)] + [
+    '//@   loop 3'] + [_cinv(x) for x in (
+        'out != nil && eqseq(currEpochParticipation, %s)' % _CP,
+        'out.CurrEpochUnslashedTargetStake == part_sum2(flats, %s, epc.CurrentEpoch.ActiveIndices, rangeindex + 1)' % _CP)]
 # end-of-epoch resets (C02): when they fire and with which epoch
 for n in ('ProcessEth1DataReset', 'ProcessSlashingsReset', 'ProcessRandaoMixesReset', 'ProcessHistoricalRootsUpdate'):
     PROPS['eth2/beacon/phase0:' + n] = ' C02'
